@@ -336,6 +336,7 @@ def run(R, tier):
     # R11.3 / R05.6: ResponseUnit::data and ::header from every unit state holding a stored failure.
     from . import c11 as _c11
     _c11._latch(R, P, u, rule="R09.13")
+    _c11._finish_keeps(R, P, u, rule="R09.13")
     # R09.10 every other writer of the workspace: unit quantities, Auto, SYSTem:VERSion - and a census that no
     # ResponseData impl is left without a rule
     covered = set()
